@@ -78,8 +78,10 @@ pub fn clip_line(
 /// the threshold are of 0.01 is used since
 /// lines may not be very aligned.
 pub fn is_collinear(a: &Point, b: &Point, c: &Point) -> bool {
-    use std::ops::Deref;
-    Triangle::new(*a.deref(), *b.deref(), *c.deref()).area() < 0.01
+    // half of the cross product of ab and ac, Heron's formula as used by
+    // `Triangle::area` is too imprecise in f32 for long and thin triangles
+    let area = ((b.x - a.x) * (c.y - a.y) - (c.x - a.x) * (b.y - a.y)) / 2.0;
+    area.abs() < 0.01
 }
 
 pub fn pad(v: f32) -> f32 {
